@@ -16,12 +16,13 @@ func init() {
 			ID: "C10", Title: "The peer's view equals the Adj-RIB-Out under any timing", Level: "other",
 			Technique:   "dependence necessity (the withdrawal path must touch the pending-announcement queue), guarded-by lockset of the queue, lock hand-over analysis on go/cfg (writes to the peer keep queue order), critical-section integrity of the sender loop",
 			DesignRef:   "DESIGN.md §4 C10",
-			Decided:     "(0) in the Adj-RIB-Out, the withdrawal of a replaced path is handed to the update sender before the replacing announcement on every path (never after, never deferred); (1) UpdateSender.RemovePath reaches code that reads and prunes the pending-announcement queue under its lock: if the withdrawal never consulted the queue, `announce queued, withdrawn before the tick` would always end with the announcement sent last; (2) every access to the queue holds toSendMu (entry locksets of the underscore helpers are the intersection over their call sites); (3) every write to the peer from the update sender (queued announcements, withdrawals, End-of-RIB) happens with the send lock held, and the send lock is always acquired while the queue lock is still held, so the order of writes equals the order in which the queue was consulted; (4) in the sender loop an entry is removed from the queue in the same critical section in which it was read, so a prefix queued while the UPDATE is being written is kept for the next round; (5) AddPath appends to the entry of its attribute hash or creates it; a best-only replacement withdraws the old path before the new one is queued.",
+			Decided:     "(w) every removal from the Adj-RIB-Out table is followed, on every feasible path, by a withdrawal handed to the clients (error branches and exits ruled out by a flag set after the removal excepted); (0) in the Adj-RIB-Out, the withdrawal of a replaced path is handed to the update sender before the replacing announcement on every path (never after, never deferred); (1) UpdateSender.RemovePath reaches code that reads and prunes the pending-announcement queue under its lock: if the withdrawal never consulted the queue, `announce queued, withdrawn before the tick` would always end with the announcement sent last; (2) every access to the queue holds toSendMu (entry locksets of the underscore helpers are the intersection over their call sites); (3) every write to the peer from the update sender (queued announcements, withdrawals, End-of-RIB) happens with the send lock held, and the send lock is always acquired while the queue lock is still held, so the order of writes equals the order in which the queue was consulted; (4) in the sender loop an entry is removed from the queue in the same critical section in which it was read, so a prefix queued while the UPDATE is being written is kept for the next round; (5) AddPath appends to the entry of its attribute hash or creates it; a best-only replacement withdraws the old path before the new one is queued.",
 			NotDecided:  "the interleaving semantics proper — equality of the replayed peer view with the Adj-RIB-Out over all schedules — is schedule-quantified and not decided by this family; only these structural preconditions are.",
 			TrustedBase: stdTrusted,
 		},
 		Run: runC10,
 		Controls: []Control{
+			{Name: "not-found-decided-by-pointer-identity", File: "routingtable/adjRIBOut/adj_rib_out.go", Old: "\t\tif !found {\n\t\t\treturn false\n\t\t}\n", New: "\t\tif !found || sentPath == p {\n\t\t\treturn false\n\t\t}\n", Expect: "table-removal-is-withdrawn"},
 			{Name: "replaced-path-withdrawn-after-announcement", File: "routingtable/adjRIBOut/adj_rib_out.go", Old: "\t\toldPaths := a.rt.ReplacePath(pfx, p)\n\t\ta.removePathsFromClients(pfx, oldPaths)\n\t}\n\n\tfor _, client := range a.clientManager.Clients() {\n\t\terr := client.AddPath(pfx, p)\n\t\tif err != nil {\n\t\t\tlog.WithFields(log.Fields{\n\t\t\t\t\"sender\": \"AdjRIBOutAddPath\",\n\t\t\t}).WithError(err).Error(\"Could not send update to client\")\n\t\t}\n\t}\n\treturn nil\n", New: "\t\toldPaths := a.rt.ReplacePath(pfx, p)\n\t\tdefer a.removePathsFromClients(pfx, oldPaths)\n\t}\n\n\tfor _, client := range a.clientManager.Clients() {\n\t\terr := client.AddPath(pfx, p)\n\t\tif err != nil {\n\t\t\tlog.WithFields(log.Fields{\n\t\t\t\t\"sender\": \"AdjRIBOutAddPath\",\n\t\t\t}).WithError(err).Error(\"Could not send update to client\")\n\t\t}\n\t}\n\treturn nil\n", Expect: "withdraw-then-announce"},
 			{Name: "withdrawal-ignores-queue", File: "protocols/bgp/server/update_sender.go", Old: "\tu.toSendMu.Lock()\n\tu._dequeue(pfx, p)\n\tu.sendMu.Lock()\n\tu.toSendMu.Unlock()\n\n\terr := u.withdrawPrefix(u.fsm.con, pfx, p)", New: "\tu.toSendMu.Lock()\n\tu.sendMu.Lock()\n\tu.toSendMu.Unlock()\n\n\terr := u.withdrawPrefix(u.fsm.con, pfx, p)", Expect: "withdrawal-consults-queue"},
 			{Name: "delete-after-send", File: "protocols/bgp/server/update_sender.go", Old: "\t\t\tdelete(u.toSend, key)\n\t\t\tu.sendMu.Lock()\n\t\t\tu.toSendMu.Unlock()\n\n\t\t\tu.sendUpdates(pathAttrs, updatesPrefixes, pathID)\n\t\t\tu.sendMu.Unlock()\n\t\t\tu.toSendMu.Lock()", New: "\t\t\tu.sendMu.Lock()\n\t\t\tu.toSendMu.Unlock()\n\n\t\t\tu.sendUpdates(pathAttrs, updatesPrefixes, pathID)\n\t\t\tu.sendMu.Unlock()\n\t\t\tu.toSendMu.Lock()\n\t\t\tdelete(u.toSend, key)", Expect: "entry-taken-in-one-critical-section"},
@@ -98,6 +99,7 @@ func methodLocksets(p *core.Prog, rel, typ string) (map[*core.Fn]*core.Locksets,
 }
 
 func runC10(c *core.Ctx) {
+	tableRemovalIsWithdrawn(c, "table-removal-is-withdrawn")
 	p := c.P
 	withdrawThenAnnounce(c)
 	const typ = "UpdateSender"
